@@ -1,1 +1,113 @@
-From TL Require Import Base.Base.
+(* C01 - Programs evaluate to the value the language semantics prescribe.    *)
+(* Statements only; the proofs are in Proofs/CoreRefine.v (over Proofs/Cont.v *)
+(* and Proofs/EvalRel.v).  The prescribed semantics is the definitional        *)
+(* interpreter Spec/CoreSem.v: one clause per core form, ordinary recursion.   *)
+From TL Require Import Base.Base Model.Reader Model.Printer Model.Store Model.Eval Model.Init.
+From TL Require Import Proofs.EvalRel Proofs.Cont Proofs.CoreRefine Spec.CoreSem.
+Local Open Scope list_scope.
+
+(* Refinement: whatever value or error, final store (every global variable,  *)
+(* every binding stack) and tick log (every side effect, in order) the         *)
+(* definitional interpreter assigns to a form, a call or a loop, the model     *)
+(* produces exactly that, for every sufficiently large fuel.  For all forms,   *)
+(* all states, all fault positions.                                            *)
+Theorem C01_model_refines_semantics : forall F n t s r s',
+  spec F n t s = (r, s') -> r <> Fuel ->
+  exists f0, forall f, (f0 <= f)%nat -> run F f t s = (r, s').
+Proof. intros F n t s r s' H Hr. exact (spec_refines F n t s r s' H Hr). Qed.
+
+(* ... and the model's answer does not depend on the fuel beyond that *)
+Theorem C01_answers_are_final : forall F f f' t s r s',
+  run F f t s = (r, s') -> r <> Fuel -> pre t s -> (f <= f')%nat -> run F f' t s = (r, s').
+Proof. exact run_mono. Qed.
+
+(* The clauses of the definitional interpreter, as equations (each is the     *)
+(* definition of Spec/CoreSem.v special / sstep unfolded; `eval` is the         *)
+(* interpreter one level down):                                                 *)
+Section Clauses.
+Variable F : fops.
+Variable rec : task -> M sx.
+Variable load : text -> M sx.
+Notation ev := (eval rec).
+
+(* if: the condition once, then ONLY the selected branch *)
+Theorem C01_if : forall c a b,
+  special F rec PIf (Cons c (Cons a b)) =
+  bind (ev c) (fun v => if truthy v then ev a else progn rec (items b) Nil).
+Proof. reflexivity. Qed.
+(* progn: left to right, value of the last form *)
+Theorem C01_progn : forall x r last,
+  progn rec (x :: r) last = bind (ev x) (fun v => progn rec r v).
+Proof. reflexivity. Qed.
+(* setq / set: the value, then the assignment to the innermost binding *)
+Theorem C01_setq : forall name e,
+  special F rec PSetq (Cons name (Cons e Nil)) =
+  bind (ev e) (fun v => bind (sym_set name v) (fun _ => ret v)).
+Proof. reflexivity. Qed.
+Theorem C01_set : forall ne e,
+  special F rec PSet (Cons ne (Cons e Nil)) =
+  bind (ev ne) (fun n => bind (ev e) (fun v => bind (sym_set n v) (fun _ => ret v))).
+Proof. reflexivity. Qed.
+(* and / or: left to right, stop at the first nil / non-nil *)
+Theorem C01_and : forall x r last,
+  and_forms rec (x :: r) last = bind (ev x) (fun v => if null v then ret v else and_forms rec r v).
+Proof. reflexivity. Qed.
+Theorem C01_or : forall x r,
+  or_forms rec (x :: r) = bind (ev x) (fun v => if null v then or_forms rec r else ret v).
+Proof. reflexivity. Qed.
+(* cond: first clause whose test is non-nil; no body = the test value *)
+Theorem C01_cond : forall c body r,
+  cond_clauses rec (Cons c body :: r) =
+  bind (ev c) (fun test => if truthy test
+                           then (if null body then ret test else progn rec (items body) Nil)
+                           else cond_clauses rec r).
+Proof. reflexivity. Qed.
+(* while: test and body are re-evaluated per iteration *)
+Theorem C01_while : forall c body last,
+  sstep F rec load (TWhile c body last) =
+  bind (ev c) (fun v => if null v then ret last
+                        else bind (progn rec (items body) Nil) (fun r => rec (TWhile c body r))).
+Proof. reflexivity. Qed.
+(* a call: the head is a variable (Lisp-1), then the function is applied *)
+Theorem C01_call : forall h args,
+  sstep F rec load (TEval (Cons h args)) = bind (ev h) (fun f => rec (TCall true f args)).
+Proof. reflexivity. Qed.
+(* applying a lambda / defun: arguments, bind parameters, body, unbind *)
+Theorem C01_apply : forall evalp ps body args,
+  sstep F rec load (TCall evalp (Lam ps body) args) = call_function rec evalp ps body (items args).
+Proof. reflexivity. Qed.
+End Clauses.
+
+Print Assumptions C01_model_refines_semantics. Print Assumptions C01_answers_are_final.
+Print Assumptions C01_if. Print Assumptions C01_progn. Print Assumptions C01_setq.
+Print Assumptions C01_set. Print Assumptions C01_and. Print Assumptions C01_or.
+Print Assumptions C01_cond. Print Assumptions C01_while. Print Assumptions C01_call.
+Print Assumptions C01_apply.
+
+(* non-vacuity: the definitional interpreter gives these programs a meaning  *)
+(* (so the refinement theorem applies to them), with value, globals and log    *)
+Definition F0 : fops :=
+  {| f_add := fun _ _ => 0%Z; f_sub := fun _ _ => 0%Z; f_mul := fun _ _ => 0%Z;
+     f_div := fun _ _ => 0%Z; f_rem := fun _ _ => 0%Z; f_pow := fun _ _ => 0%Z;
+     f_max := fun _ _ => 0%Z; f_min := fun _ _ => 0%Z; f_of_int := fun z => z;
+     f_to_int := fun z => z; f_round := fun z => z; f_trunc := fun z => z;
+     f_lt := Z.ltb; f_le := Z.leb; f_eq := Z.eqb; f_is_finite := fun _ => true;
+     f_to_dec := fun _ => []; f_of_dec := fun _ => None |}.
+Definition obs (r : res sx * st) := (fst r, map fst (log (snd r)), var_items (snd r) (s2t "x")).
+Definition by_spec (p : string) :=
+  obs (bind (parse_body F0 (spec F0 60) (s2t p)) (fun out => eval_progn (spec F0 60) out) (init_state [] None)).
+Definition by_model (p : string) := obs (eval_string F0 60 (s2t p) (init_state [] None)).
+Definition prog : string :=
+  "(setq x 0) (defun sq (n) (* n n)) (let ((y 3)) (dotimes (i 3) (setq x (+ x (sq i)))) (dolist (e '(1 2) x) (tick e (setq x (+ x e)))) (while (< x 10) (setq x (+ x y))) (if (> x 9) (tick 7 'big) (tick 8 'small)) (cond ((< x 0) 'neg) ((funcall (lambda (v) (and v (or nil v))) x))))".
+Example C01_spec_defines : by_spec prog = (Ok (Int 11), [7; 0; 0]%Z, [Int 11]).
+Proof. vm_compute. reflexivity. Qed.
+Example C01_model_agrees : by_model prog = by_spec prog.
+Proof. vm_compute. reflexivity. Qed.
+(* the known finding D1 (let binds sequentially) is what both do *)
+Example C01_known_let_sequential :
+  fst (fst (by_spec "(let ((a 1)) (let ((a 2) (b a)) b))")) = Ok (Int 2).
+Proof. vm_compute. reflexivity. Qed.
+
+Check C01_model_refines_semantics : forall F n t s r s',
+  spec F n t s = (r, s') -> r <> Fuel ->
+  exists f0, forall f, (f0 <= f)%nat -> run F f t s = (r, s').
